@@ -255,7 +255,7 @@ func c17CheckRecover(r *verifmc.Run, ov *verifmc.OrderedViolations, base []int, 
 				}
 			}
 			if sample && len(mem) == t+1 {
-				r.Sample(map[string]interface{}{"case": caseID, "t": t, "shares": len(sub), "recovered": err == nil})
+				ov.AddSample(caseID, map[string]interface{}{"case": caseID, "t": t, "shares": len(sub), "recovered": err == nil})
 			}
 		}
 	}
@@ -307,7 +307,9 @@ func (j c17Job) rank() []int {
 	return []int{j.n, j.t, gi, si}
 }
 
-func (j c17Job) tag() string { return fmt.Sprintf("%s/t=%d/n=%d/secret=%s", j.G.name, j.t, j.n, j.sec.name) }
+func (j c17Job) tag() string {
+	return fmt.Sprintf("%s/t=%d/n=%d/secret=%s", j.G.name, j.t, j.n, j.sec.name)
+}
 
 // TestVerifC17_shamir: Share(n) with identifiers 1..n, every subset, enumerated orders.
 func TestVerifC17_shamir(t *testing.T) {
@@ -441,7 +443,7 @@ func TestVerifC17_feldman(t *testing.T) {
 	defer ov.Flush()
 	maxN := r.Pick(5, 7)
 	r.Rule("groups x all (t,n), 0<=t<n<=maxN x secrets: every dealt share (ids 1..n) and 3 ShareWithID shares must verify; every single alteration of each share " +
-		"(value+1, value-1, value:=0, value:=another share's, id+1, id-1, id:=q-id, id:=another share's, id<->value) and of the commitment (each c[j] := c[j]+G, identity, c[j+1]; dropped / duplicated last entry; t-1, t+1) " +
+		"(value+1, value-1, value:=0, value:=another share's, id+1, id-1, id:=q-id, id:=another share's, id<->value) and of the commitment (each c[j] := c[j]+G, identity, c[j+1]; dropped / duplicated last entry) " +
 		"must not verify unless the altered pair still satisfies value = f(id) (decided by the big.Int model; those coincidences are counted, nothing is demanded); non-trivial = distinct (group,t,n,secret,share,alteration)")
 	r.Set("max_n", maxN)
 	jobs := c17Jobs(r, maxN)
@@ -494,7 +496,7 @@ func TestVerifC17_feldman(t *testing.T) {
 			case want && !got:
 				ov.Add(append(j.rank(), seq()), "C17|secretsharing.Verify|dealt-share-rejected|"+kind, caseID, caseID+": a share dealt by the committed polynomial does not verify", replay)
 			case !want && got:
-				ov.Add(append(j.rank(), seq()), "C17|secretsharing.Verify|altered-accepted|"+kind, caseID, caseID+": Verify accepted although value != f(id) for the committed polynomial", replay)
+				ov.Add(append(j.rank(), seq()), "C17|secretsharing.Verify|altered-accepted|"+kind, caseID, caseID+": Verify accepted "+map[bool]string{true: "a share whose identifier is zero", false: "although value != f(id) for the committed polynomial"}[strings.HasSuffix(kind, "zero-identifier")], replay)
 			case want:
 				r.Count("dealt_verified", 1)
 			default:
@@ -559,10 +561,13 @@ func TestVerifC17_feldman(t *testing.T) {
 					r.Count("altered_pair_still_on_polynomial", 1)
 					continue
 				}
-				if a.id.Sign() == 0 {
-					r.Count("altered_to_zero_id", 1)
-				}
 				kind := "share-" + a.name
+				if a.id.Sign() == 0 {
+					// identifiers are never zero (package documentation; ShareWithID panics, Verify is documented to refuse):
+					// the point at zero is the secret itself
+					r.Count("altered_to_zero_id", 1)
+					kind += "=zero-identifier"
+				}
 				verify(caseID, kind, uint(j.t), secretsharing.Share{ID: G.scalar(a.id), Value: G.scalar(a.val)}, coms, false, rp)
 			}
 			// commitment alterations against the honest share
@@ -601,17 +606,31 @@ func TestVerifC17_feldman(t *testing.T) {
 					verify(fmt.Sprintf("%s|%s,j=%d", base, a.name, c), "commitment-"+a.name, uint(j.t), sh, mk(a.e), false, rp)
 				}
 			}
-			// wrong number of commitments / wrong threshold: value = f(id) cannot be established for degree t
-			dup := append(append(secretsharing.SecretCommitment{}, coms...), coms[len(coms)-1])
-			verify(base+"|commitment-extended", "commitment-extended", uint(j.t), sh, dup, false, rp)
-			verify(base+"|commitment-truncated", "commitment-truncated", uint(j.t), sh, coms[:len(coms)-1], false, rp)
-			verify(base+"|t+1", "threshold+1", uint(j.t+1), sh, coms, false, rp)
-			if j.t > 0 {
-				verify(base+"|t-1", "threshold-1", uint(j.t-1), sh, coms, false, rp)
+			// wrong number of commitments: the vector commits to another polynomial (one coefficient dropped, or the
+			// last one repeated as coefficient of x^(t+1)); nothing is demanded when that polynomial still passes through the share
+			if ext := append(append([]*big.Int{}, coef...), coef[len(coef)-1]); onPoly(ext, id, val) {
+				r.Count("altered_commitment_still_matches", 1)
+			} else {
+				dup := append(append(secretsharing.SecretCommitment{}, coms...), coms[len(coms)-1])
+				verify(base+"|commitment-extended", "commitment-extended", uint(j.t), sh, dup, false, rp)
+			}
+			if onPoly(coef[:len(coef)-1], id, val) {
+				r.Count("altered_commitment_still_matches", 1)
+			} else {
+				verify(base+"|commitment-truncated", "commitment-truncated", uint(j.t), sh, coms[:len(coms)-1], false, rp)
+			}
+			// honest share and honest commitment under another threshold: the statement does not say; observed only
+			for _, dt := range []int{1, -1} {
+				if j.t+dt < 0 {
+					continue
+				}
+				var got bool
+				p, _ := verifmc.Try(func() { got = secretsharing.Verify(uint(j.t+dt), sh, coms) })
+				r.Outcome(fmt.Sprintf("observed-only:threshold%+d:%s", dt, map[bool]string{true: "panic", false: fmt.Sprint(got)}[p]))
 			}
 		}
 		if j.t == 2 && j.n == 4 && j.sec.name == "shake0" {
-			r.Sample(map[string]interface{}{"case": tag, "shares_checked": len(d.shares), "commitments": len(coms)})
+			ov.AddSample(tag, map[string]interface{}{"case": tag, "shares_checked": len(d.shares), "commitments": len(coms)})
 		}
 	})
 	r.RequireCounter("dealt_verified", 500)
@@ -623,7 +642,7 @@ func TestVerifC17_feldman(t *testing.T) {
 func TestVerifC17_refcheck(t *testing.T) {
 	r := verifmc.Start(t, "C17", "refcheck")
 	defer r.Finish()
-	r.Rule("reference model against: crypto/elliptic group orders, RFC 8032 order of edwards25519, complete enumeration of all polynomials of degree <= 2 over GF(7) and GF(11) " +
+	r.Rule("reference model against: crypto/elliptic group orders, RFC 8032 order of edwards25519, complete enumeration of all polynomials of degree <= 2 over GF(7) (thorough: and GF(11)) " +
 		"with all node sets, Shoup's identity sum_j lambda_{0,j} f(j) = l! f(0) over the integers for all subsets of {1..l}, l <= 8, and the lambda vector documented in tss/rsa's own test (1200)")
 	// group orders
 	for _, G := range c17Groups() {
@@ -640,7 +659,11 @@ func TestVerifC17_refcheck(t *testing.T) {
 		t.Fatal("ristretto255 order differs from RFC 8032 L")
 	}
 	// complete small fields: GF(7) with every ordered triple of distinct non-zero nodes, GF(11) with every ascending triple
-	for _, q64 := range []int64{7, 11} {
+	fields := []int64{7}
+	if r.Thorough() {
+		fields = append(fields, 11)
+	}
+	for _, q64 := range fields {
 		q := big.NewInt(q64)
 		var nodes [][]*big.Int
 		for a := int64(1); a < q64; a++ {
